@@ -289,6 +289,9 @@ func LiveMPD(a *asset, mpdName string, cfg *ResponseConfig, drmCfg *drm.DrmConfi
 			if err != nil {
 				return nil, fmt.Errorf("adjustASForSegmentNumber: %w", err)
 			}
+			if cfg.liveMPDType() != segmentNumber {
+				break // a thumbnail AdaptationSet in a SegmentTimeline MPD must not reset publishTime
+			}
 			mpd.PublishTime = mpd.AvailabilityStartTime
 		default:
 			return nil, fmt.Errorf("unknown mpd type")
